@@ -1104,7 +1104,29 @@ static herr_t print_children(hid_t id, const char *name, void *data)
 /* ================================================================
  * routines for dealing with links
  * ================================================================ */
+static hid_t open_link_1(hid_t id, int *err);
+static int is_link(hid_t id);
+
+/* follow the link, and the links it leads to, up to the ADF depth limit */
 static hid_t open_link(hid_t id, int *err)
+{
+  int depth = 0;
+  hid_t nid, lid = open_link_1(id, err);
+
+  while (lid >= 0 && is_link(lid)) {
+    if (++depth >= ADF_MAXIMUM_LINK_DEPTH) {
+      H5Gclose(lid);
+      set_error(LINKS_TOO_DEEP, err);
+      return -1;
+    }
+    nid = open_link_1(lid, err);
+    H5Gclose(lid);
+    lid = nid;
+  }
+  return lid;
+}
+
+static hid_t open_link_1(hid_t id, int *err)
 {
   hid_t lid;
   herr_t herr;
